@@ -49,7 +49,7 @@ MUTATIONS = [
     ('c03-no-truncation', 'C03', 'abacusnbody/data/compaso_halo_catalog.py', '        self.halos = self.halos[:N_written]\n', ''),
     ('c03-duplicates-allowed', 'C03', 'abacusnbody/data/compaso_halo_catalog.py', '                    if p == q:\n                        raise ValueError(', '                    if False:\n                        raise ValueError('),
     ('c03-mixed-allowed', 'C03', 'abacusnbody/data/compaso_halo_catalog.py', "                if not groupdir == p.parents[1] and not halo_lc:\n                    raise ValueError(\"Can't mix files from different catalogs!\")", "                if False:\n                    raise ValueError(\"Can't mix files from different catalogs!\")"),
-    ('c03-filter-sees-raw-N', 'C03', 'abacusnbody/data/compaso_halo_catalog.py', "                if self.cleaned and not passthrough:\n                    halos.rename_column('N_total', 'N')\n\n                mask = self.filter_func(halos)", "                if self.cleaned and not passthrough and 'N' not in rawhalos.colnames:\n                    halos.rename_column('N_total', 'N')\n\n                mask = self.filter_func(halos) if 'N' in halos.colnames or not self.cleaned else self.filter_func(rawhalos)"),
+    ('c03-filter-sees-raw-N', 'C03', 'abacusnbody/data/compaso_halo_catalog.py', "                if self.cleaned and not passthrough:\n                    halos.rename_column('N_total', 'N')\n\n                mask = self.filter_func(halos)", "                if self.cleaned and not passthrough:\n                    halos['N'] = rawhalos['N_total'] * 0 + 10**6 if 'N_total' in rawhalos.colnames else 0\n\n                mask = self.filter_func(halos)"),
     ('c03-compaction-offset', 'C03', 'abacusnbody/data/compaso_halo_catalog.py', '                halos[:nmask] = halos[mask]', '                halos[:nmask] = halos[mask][::-1] if nmask == 2 else halos[mask]'),
     ('c03-file-order-sorted', 'C03', 'abacusnbody/data/compaso_halo_catalog.py', '                halo_fns = path  # path is list of one or more files', '                halo_fns = sorted(path)  # path is list of one or more files'),
     # ---- C05
